@@ -28,8 +28,8 @@ CHECKS = {
     design="4 C15"),
  "C03": dict(
     category="proof", technique="Coq proofs per operator over the regenerated folding table (Python semantics of each lambda = instruction semantics, all operands in the domain) + correspondence with CPython + compile-and-run observation",
-    text="The operator tables of utils.py, including the body of every folding lambda, are re-read on each run as terms and proved equal to the model tables; for each operator the kernel checks, for ALL operands in the stated domain, that Python's evaluation of the lambda yields exactly the value the paired instruction computes (+ - * / ** comparisons: identical IEEE operation; %: for every non-negative modulus; and/or/^/&/>>/<<: non-negative integers below 2^53; not; unary minus up to the sign of zero, from the standard library's IEEE axioms; ~ is never folded). The Python-semantics model is compared with the real lambdas on an operand grid, and the property's own observation (constant operands vs operands loaded from the stack, four program shapes) is run through the compiler and the machine model.",
-    note="Trusted: Coq kernel + stdlib Floats.FloatAxioms (named in print_assumptions); Fold.v model of Python numerics (compared with CPython each run); FloatAlg.v chip arithmetic; transcendental functions / pow assumed identical on both sides; translator ops.py. The recursive is_constant evaluator and the propagation passes are exercised by the observation runs, not modelled.",
+    text="The operator tables of utils.py, including the body of every folding lambda, are re-read on each run as terms and proved equal to the model tables; for each operator the kernel checks, for ALL operands in the stated domain, that Python's evaluation of the lambda yields exactly the value the paired instruction computes (+ - * / ** comparisons: identical IEEE operation; %: for every non-negative modulus; and/or/^/&/>>/<<: non-negative integers below 2^53; not; unary minus up to the sign of zero, from the standard library's IEEE axioms; ~ is never folded); lifted by induction to whole expression trees (the recursion of is_constant): every tree over + - * / ** and the comparisons, of any shape and depth, folds to the value the instructions compute, and so does any tree whose nodes' operands lie in the operator's domain. The Python-semantics model is compared with the real lambdas on an operand grid, and the property's own observation (constant operands vs operands loaded from the stack, four program shapes) is run through the compiler and the machine model.",
+    note="Trusted: Coq kernel + stdlib Floats.FloatAxioms (named in print_assumptions); Fold.v model of Python numerics (compared with CPython each run); FloatAlg.v chip arithmetic; transcendental functions / pow assumed identical on both sides; translator ops.py. The tree recursion of is_constant is modelled (FoldTree.v) and exercised by the observation runs; the propagation of constants through names and passes is exercised only.",
     design="4 C03"),
  "C01": dict(
     category="translation_validation", technique="Coq reference semantics (source dialect + IC10 machine) with kernel-checked machine/validator lemmas; per-compile validation by differential execution inside Coq; generated programs, shrinking, known-finding classification",
@@ -63,8 +63,8 @@ CHECKS = {
     design="4 C05, 11.2"),
  "C06": dict(
     category="proof", technique="Coq: shadow-call-stack monitor proved not to disturb the machine; model of add_ra_instructions with shape theorem for all function bodies (fixed-slot) + correspondence in both conventions; monitored execution of generated call graphs",
-    text="Kernel-checked: the monitored run is the machine's run for every program/oracle/fuel/state; for EVERY function body of the emitted shape that makes a call, add_ra_instructions (fixed-slot) yields one push ra on entry and one pop ra after the end label, so every exit (early returns jump to the end label) restores ra; functions without calls or returns are untouched. The model of add_ra_instructions (both conventions) is compared with the real method on 1000+ synthetic instruction lists. Generated programs with functions (arities 0-3, early returns, calls in expressions) are compiled under five option sets; every executed return is checked by the monitor (returns to the call being served, stack-pointer delta 0 / -args+result) and effect traces are compared with the source.",
-    note="Trusted: Coq kernel; Machine.v/Monitor.v; RaInsert.v abstraction of instructions; generator's arities; hook. Monitored runs bounded and sampled. Push/pop placement has no shape theorem (correspondence only). Open known findings: consequences of C07 fall-through only (the tail-call and constant-list-loop defects were repaired: 7e7d929, c46ae10).",
+    text="Kernel-checked: the monitored run is the machine's run for every program/oracle/fuel/state; for EVERY function body of the emitted shape that makes a call, add_ra_instructions (fixed-slot) yields one push ra on entry and one pop ra after the end label, so every exit (early returns jump to the end label) restores ra; functions without calls or returns are untouched; for the push/pop convention, for EVERY instruction list starting with the function label (push position not also a pop position), the result is the original list decorated with `push ra` after the argument pops and `pop ra` at each exit (or in front of the value push preceding it), and reading the result from the top every exit - early return or end label - is preceded by `pop ra` with at most the return-value push in between (insertion at descending positions = decoration, proved generically). The model of add_ra_instructions (both conventions) is compared with the real method on 1000+ synthetic instruction lists. Generated programs with functions (arities 0-3, early returns, calls in expressions) are compiled under five option sets; every executed return is checked by the monitor (returns to the call being served, stack-pointer delta 0 / -args+result) and effect traces are compared with the source.",
+    note="Trusted: Coq kernel; Machine.v/Monitor.v; RaInsert.v abstraction of instructions; generator's arities; hook. Monitored runs bounded and sampled. Open known findings: consequences of C07 fall-through only (the tail-call and constant-list-loop defects were repaired: 7e7d929, c46ae10).",
     design="4 C06"),
  "C14": dict(
     category="proof", technique="Coq: verified outcome analysis of control skeletons (soundness for every skeleton, environment and execution) evaluated on the regenerated skeletons of process_input and main + scripted-stdin runs of the real daemon under five interpreter environments",
